@@ -89,10 +89,14 @@ def define_pipeline(spec, shard_index=0, num_shards=1, with_source=True):
   T = transform.TreeTransform
   source = None
   if with_source:
-    ds = io.SequenceDataSource(records(spec['n'], spec['rec']))
+    if spec.get('source') == 'rr':
+      ds = io.ShardedIterable(records(spec['n'], spec['rec']))   # round-robin shards
+    else:
+      ds = io.SequenceDataSource(records(spec['n'], spec['rec']))  # contiguous shards
     if num_shards > 1 or shard_index:
       ds = ds.shard(shard_index, num_shards)
-    source = T.new(name='datasource').data_source(ds)
+    source = T.new(name='datasource',
+                   num_threads=spec.get('source_threads', 0)).data_source(ds)
   stage = T.new(name='apply', num_threads=spec.get('num_threads', 0))
   for op in spec['ops']:
     if op[0] == 'filter':
